@@ -190,6 +190,15 @@ def body_history(h):
         r3 = h.call(arr.erase_, iter([name]))
         r4 = h.call(arr.dim_, iter([(name, [5] * n)]))
         h.require('erase-then-dim', r3[0] == 'ok' and r4[0] == 'ok' and arr._dims.get(name) == [5] * n)
+        # an explicit OPTION BASE survives ERASE: the lower bound still applies to the new array
+        if ob < 2:
+            r6 = h.call(arr.check_dim, name, [ob] * n)
+            h.require('lower-bound-accepted-after-erase', r6[0] == 'ok')
+            if ob == 1:
+                r7 = h.call(arr.check_dim, name, [0] * n)
+                h.require('explicit-base-survives-erase', res_is(r7, SUBSCRIPT))
+            r8 = h.call(arr.option_base_, iter([1 - ob]))
+            h.require('other-base-still-refused-after-erase', res_is(r8, DUPDEF))
         # erasing an array that does not exist
         r5 = h.call(arr.erase_, iter([b'B!']))
         h.require('erase-missing-ifc', res_is(r5, IFC))
